@@ -50,4 +50,5 @@ def run(ctx, rep):
     rep.run(RI.rule_instantiation_depends_on_itself_only, ctx, rep, "P9")
     # P10: the pybind block of one instantiation does not depend on the instantiations wrapped before it
     rep.run(RP.rule_class_block_independent_of_earlier_classes, ctx, rep, "P10")
+    rep.run(RI.rule_instantiate_type_by_evaluation, ctx, rep, "P11", part="purity")
     rep.run(RF.rule_locals_defined, ctx, rep, "U1", packages=("gtwrap/template_instantiator",), min_functions=3)
